@@ -113,38 +113,38 @@ PROPS["C12"] = {
 }
 
 PROPS["C07"] = {
-    "modules": ["Gmsm.Props.C07", "Gmsm.Props.C07CBC"],
+    "modules": ["Gmsm.Props.C07", "Gmsm.Props.C07CBC", "Gmsm.Props.C07Pad"],
     "theorems": [
         "Props.C07.seq_step_encrypt", "Props.C07.seq_step_decrypt", "Props.C07.nonce_injective", "Props.C07.aad_inj",
         "Props.C07.prefix_delivery", "Props.C07.sticky_error", "Props.C07.honest_delivery", "Props.C07.sm4gcm_correct",
-        "Props.C07.decrypt_encrypt_gcm", "Gmsm.i2ospR_inj", "Props.C07.decrypt_encrypt_cbc", "Props.C07.extractPadding_padCBC", "Props.C07.cbc_all_inv",
+        "Props.C07.decrypt_encrypt_gcm", "Gmsm.i2ospR_inj", "Props.C07.decrypt_encrypt_cbc", "Props.C07.extractPadding_padCBC", "Props.C07.cbc_all_inv", "Props.C07Pad.extractPaddingGo_spec", "Props.C07Pad.extractPaddingGo_good_cases", "Props.C07Pad.extractPaddingGo_toRemove_le", "Props.C07Pad.extractPaddingGo_good_iff_explicit", "Props.C07Pad.andBits_spec", "Props.C07Pad.msbMask_sub",
     ],
     "gen_items": [],
     "level": "proof",
-    "claim": "Two layers. (1) An abstract authenticated channel over an AEAD with an authenticity hypothesis (ideal primitive, never an axiom): for EVERY record sequence an adversary feeds the receiver the delivered payloads are a prefix of those sent, the first rejected record is fatal, an untouched stream is delivered in full - induction over the receiver's input; it rests on the proved injectivity of seq||type||version||length and of the GCM nonce salt||seq. (2) A byte-exact Lean model of halfConn.encrypt/decrypt, Conn.Write (1/n-1 split, dynamic record sizing, explicit IV / nonce) and Conn.Read/readRecord with real SM4/HMAC-SM3/GCM: sequence numbers step by exactly one, the GCM record round-trips; it predicts the wire bytes of the real code and the outcome (delivered bytes, alert) for tampered streams, compared on every run.",
+    "claim": "Two layers. (1) An abstract authenticated channel over an AEAD with an authenticity hypothesis (ideal primitive, never an axiom): for EVERY record sequence an adversary feeds the receiver the delivered payloads are a prefix of those sent, the first rejected record is fatal, an untouched stream is delivered in full - induction over the receiver's input; it rests on the proved injectivity of seq||type||version||length and of the GCM nonce salt||seq. (2) A byte-exact Lean model of halfConn.encrypt/decrypt, Conn.Write (1/n-1 split, dynamic record sizing, explicit IV / nonce) and Conn.Read/readRecord with real SM4/HMAC-SM3/GCM: sequence numbers step by exactly one, the GCM record round-trips; it predicts the wire bytes of the real code and the outcome (delivered bytes, alert) for tampered streams, compared on every run. Added: decrypt_encrypt_cbc (the SM4-CBC + HMAC-SM3 record written by halfConn.encrypt is accepted at the same sequence number and yields the payload, for all keys, IVs, types, payloads) and extractPaddingGo_spec: a bit-level transcription of the constant-time extractPadding (uint64/int32/byte arithmetic, the mask and AND-fold tricks) returns exactly (paddingLen+1, 255 iff the last paddingLen+1 bytes all equal paddingLen and fit) for every payload shorter than 2^31 bytes; the driver evaluates both models on every expad op.",
     "note": "Trusted: Lean kernel; authenticity of the AEAD / MAC is a hypothesis of prefix_delivery (INT-CTXT for the sender's sealed set); the CBC+HMAC suite is covered by the byte-exact model and correspondence, its round-trip and the Go bit-trick extractPadding are compared (expad) but not proved; crypto/cipher CBC/GCM and crypto/hmac are stdlib.",
     "trusted_base": [
         "Model.Record mirrors gmtls/conn.go halfConn.encrypt/decrypt, writeRecordLocked, maxPayloadSizeForWrite, Write, readRecord, Read for version 0x0101; tie = recwrite (exact wire bytes incl. explicit IVs from Config.Rand and nonce = seq) and recread (delivered bytes + alert for bit flips in every record region, truncation, extension, swap, duplicate, drop, injection, cross-connection replay, header edits), hook gmtls.VerifEstablished",
     ],
     "assumptions": ["Authentic AEAD: anything that opens under (nonce, additional data) was sealed by the sender under exactly those (hypothesis of prefix_delivery)", "fewer than 2^64 records per direction (the code panics instead of wrapping)"],
-    "not_proved": ["extractPadding (constant-time bit tricks) = its specification as a theorem (T1 of the design; compared for all pad lengths 0..255 by expad)", "prefix_delivery instantiated for MAC-then-encrypt CBC (the abstract theorem is stated for AEAD-shaped protection)"],
+    "not_proved": ["prefix_delivery instantiated for MAC-then-encrypt CBC (the abstract theorem is stated for AEAD-shaped protection)"],
 }
 
 PROPS["C10"] = {
-    "modules": ["Gmsm.Props.C10"],
+    "modules": ["Gmsm.Props.C10", "Gmsm.Props.C10Complete"],
     "theorems": [
         "Props.C10.mem_findVerifiedParents", "Props.C10.buildChains_sound", "Props.C10.verify_sound",
-        "Props.C10.buildChains_budget", "Props.C10.eku_unrestricted",
+        "Props.C10.buildChains_budget", "Props.C10.eku_unrestricted", "Props.C10.mem_findVerifiedParents_iff", "Props.C10.findVerifiedParents_complete", "Props.C10.buildChains_complete", "Props.C10.goodSuffix_length_le", "Props.C10.verify_complete", "Props.C10.verify_chains_exact", "Props.C10.verify_iff_exists_good_path", "Props.C10.verify_only_if_good_path",
     ],
     "gen_items": [],
     "level": "proof",
-    "claim": "Lean 4 model of Verify/buildChains/isValid/findVerifiedParents/CheckSignatureFrom/VerifyHostname/checkChainForKeyUsage over abstract certificates (exactly the fields Verify reads; the signature relation is given by key identities). Proved for all pools, signature relations, options and budgets: every returned chain starts at the leaf, ends in a root, passes only through intermediates, every link satisfies CheckSignatureFrom, every certificate passes isValid at its position (name chaining, validity at `now`, permitted DNS domains, CA flag, path length), nothing repeats; the leaf has no unhandled critical extension, is valid, matches the host name and the usages; the search is structurally terminating within the code's own work budget. Exactness (completeness, order independence) is decided by comparing the real Verify with the model on generated PKIs for which real certificates are issued.",
+    "claim": "Lean 4 model of Verify/buildChains/isValid/findVerifiedParents/CheckSignatureFrom/VerifyHostname/checkChainForKeyUsage over abstract certificates (exactly the fields Verify reads; the signature relation is given by key identities). Proved for all pools, signature relations, options and budgets: every returned chain starts at the leaf, ends in a root, passes only through intermediates, every link satisfies CheckSignatureFrom, every certificate passes isValid at its position (name chaining, validity at `now`, permitted DNS domains, CA flag, path length), nothing repeats; the leaf has no unhandled critical extension, is valid, matches the host name and the usages; the search is structurally terminating within the code's own work budget. Exactness (completeness, order independence) is decided by comparing the real Verify with the model on generated PKIs for which real certificates are issued. Added (C10Complete): the completeness direction — mem_findVerifiedParents_iff characterises candidate selection exactly (signature relation plus the key-identifier prefilter of cert_pool.go), buildChains_complete (every good suffix within fuel and work budget is returned), verify_complete, verify_chains_exact and verify_iff_exists_good_path: while the work budget is not exhausted, Verify succeeds iff a good path exists and returns exactly the good paths passing the key-usage check; examples show each hypothesis (budget, fuel, key-id condition) is necessary.",
     "note": "Trusted: Lean kernel; the hand model is tied to x509/verify.go by the chain correspondence (real SM2 certificates issued per generated topology: up to 3 roots, 4 intermediates with cross-certificates and loops, perturbed validity/CA/pathlen/keyUsage/constraints/signature/EKU/SKI-AKI, shuffled pool order, host names incl. case, trailing dot, wildcards, IPs, brackets); ParseCertificate/CreateCertificate and net.ParseIP are outside the model; completeness is validated, not proved.",
     "trusted_base": [
         "Model.X509 mirrors verify.go:178-568 and cert_pool.go findVerifiedParents/contains; tie = `chain` correspondence comparing the sorted set of returned chains (as certificate identities) and the error class",
     ],
     "assumptions": ["SM2 signature verification behaves as the relation signer = parent key (C01)"],
-    "not_proved": ["verify_complete (every valid simple path within the budget is returned) as a theorem", "hostname_match_spec as a standalone characterisation (String functions do not reduce in the kernel; covered by correspondence)"],
+    "not_proved": ["hostname_match_spec as a standalone characterisation (String functions do not reduce in the kernel; covered by correspondence)"],
 }
 
 PROPS["C03"] = {
@@ -250,21 +250,21 @@ PROPS["C09"] = {
 }
 
 PROPS["C17"] = {
-    "modules": ["Gmsm.Props.C17"],
+    "modules": ["Gmsm.Props.C17", "Gmsm.Props.C17Idem"],
     "theorems": [
         "Props.C17.length_roundtrip", "Props.C17.encodeLength_long", "Props.C17.unpad_pad", "Props.C17.unpad_sound",
         "Props.C17.bmp_roundtrip", "Props.C17.bmpString_injective", "Props.C17.bmpString_rejects_astral",
         "Props.C17.verify_signer_iff", "Props.C17.verify_iff", "Props.C17.content_bound", "Props.C17.accepted_is_signed",
         "Props.C17.tables_cover_own_output", "Props.C17.recipient_recovers", "Props.C17.non_recipient_rejected",
-        "Props.C17.other_key_partial",
+        "Props.C17.other_key_partial", "Props.C17Idem.length_roundtrip_at", "Props.C17Idem.readObject_encodeTo", "Props.C17Idem.readItems_encodeItems", "Props.C17Idem.ber2der_encodeTo", "Props.C17Idem.readObject_wf", "Props.C17Idem.ber2der_idempotent",
     ],
     "gen_items": [],
     "level": "proof",
-    "claim": "The parts of the containers that the library implements itself are modelled and proved for every input: the BER->DER transcoder's length octets read back as the same definite length on both sides of the 127/128 boundary (length_roundtrip, below 2^31), the enveloped-data block padding is removed exactly (unpad_pad, unpad_sound), BMPString passwords round-trip and are injective for every BMP string and astral characters are refused, the signed-data verdict is characterised outright (verify_signer_iff / verify_iff: known digest, signer certificate present, known algorithm pair, signature by the certified key over the content or over the DER SET of attributes whose message-digest attribute equals the digest of the content) with content_bound (another content is accepted only on a digest collision), and recipient handling (recipient_recovers for every recipient of a list with distinct issuer+serial, non_recipient_rejected). The models are executed against the real code on every run (ber2der on library-made DER, hand-made BER, mutated and 1000-deep inputs; pad/unpad; bmpString/decodeBMPString; Verify's verdict on 80 harness-built SM2 signed-data objects over 10 tamper kinds x attributes x detached x both SM3 OIDs), and whole containers are decided by intrinsic oracles on the real code: PKCS7Encrypt/PKCS7EncryptSM2 x {DES-CBC, AES-128-GCM} x {C1C3C2, C1C2C3} x 1..3 recipients x contents 0..64 KiB incl. lengths putting TLVs on the 127/128 boundary: every recipient recovers the content, a non-recipient and a recipient certificate with another key do not, every sampled single-byte corruption of an AES-GCM container gives an error or the same content; RSA SignedData through NewSignedData/AddSigner/Finish and SM2 SignedData assembled by the harness verify, and are refused after each tamper; pkcs12.Encode/DecodeAll with empty, ASCII, Cyrillic, CJK, 31/32/40/100-character passwords return the same key and certificate, refuse passwords differing in the last character, and no sampled single-byte corruption decodes to another key or certificate.",
+    "claim": "The parts of the containers that the library implements itself are modelled and proved for every input: the BER->DER transcoder's length octets read back as the same definite length on both sides of the 127/128 boundary (length_roundtrip, below 2^31), the enveloped-data block padding is removed exactly (unpad_pad, unpad_sound), BMPString passwords round-trip and are injective for every BMP string and astral characters are refused, the signed-data verdict is characterised outright (verify_signer_iff / verify_iff: known digest, signer certificate present, known algorithm pair, signature by the certified key over the content or over the DER SET of attributes whose message-digest attribute equals the digest of the content) with content_bound (another content is accepted only on a digest collision), and recipient handling (recipient_recovers for every recipient of a list with distinct issuer+serial, non_recipient_rejected). The models are executed against the real code on every run (ber2der on library-made DER, hand-made BER, mutated and 1000-deep inputs; pad/unpad; bmpString/decodeBMPString; Verify's verdict on 80 harness-built SM2 signed-data objects over 10 tamper kinds x attributes x detached x both SM3 OIDs), and whole containers are decided by intrinsic oracles on the real code: PKCS7Encrypt/PKCS7EncryptSM2 x {DES-CBC, AES-128-GCM} x {C1C3C2, C1C2C3} x 1..3 recipients x contents 0..64 KiB incl. lengths putting TLVs on the 127/128 boundary: every recipient recovers the content, a non-recipient and a recipient certificate with another key do not, every sampled single-byte corruption of an AES-GCM container gives an error or the same content; RSA SignedData through NewSignedData/AddSigner/Finish and SM2 SignedData assembled by the harness verify, and are refused after each tamper; pkcs12.Encode/DecodeAll with empty, ASCII, Cyrillic, CJK, 31/32/40/100-character passwords return the same key and certificate, refuse passwords differing in the last character, and no sampled single-byte corruption decodes to another key or certificate. Added (C17Idem): readObject_encodeTo / ber2der_encodeTo (every well-formed object's encoding is read back as that object) and ber2der_idempotent: whatever the transcoder outputs is mapped to itself (DER in, the same DER out), for outputs shorter than 2^31 bytes.",
     "note": "Partial: the cryptography under the containers (SM2/RSA key wrap, DES/AES, HMAC-SHA1, RC2/3DES PBE, PKCS#12 KDF, encoding/asn1) is exercised by the intrinsic oracles, not modelled; in the theorems it appears as parameters (Prims / EPrims with CorrectE). 'By no other key' is proved only relative to the wrap scheme refusing foreign keys (other_key_partial). DES-CBC content encryption is unauthenticated, so 'a corrupted container never yields other content' is asserted for AES-GCM only (see DESIGN.md, false alarms). A full ber2der(encodeTo o) = encodeTo o theorem over the recursive object type is not proved.",
     "trusted_base": ["Model.BER / Model.PKCS7 tied by the ber2der/p7pad/p7unpad/bmp/unbmp/p7v ops (exact output equality) and by intrinsic oracles p7env/p7sign/p12 in harness/c17.go", "hooks x509.VerifBer2der/VerifPad/VerifUnpad, pkcs12.VerifBmpString/VerifDecodeBMPString", "encoding/asn1, crypto/* (stdlib)"],
     "assumptions": ["CorrectE: unwrap(wrap k) = k, dec(enc m) = m for the right keys"],
-    "not_proved": ["ber2der idempotent on DER as a theorem over Obj", "PKCS#12 MAC / PBE as theorems (stdlib crypto)", "no-other-key as an unconditional statement"],
+    "not_proved": ["PKCS#12 MAC / PBE as theorems (stdlib crypto)", "no-other-key as an unconditional statement"],
 }
 
 PROPS["C18"] = {
@@ -379,6 +379,7 @@ PROPS["C20"] = {
     "gen_items": [],
     "race": True,
     "par_chunk": 3,
+    "op_timeout": 400,
     "level": "proof",
     "claim": "What is proved: the sequential models of the shared objects are order-independent — every Encrypt/Decrypt result on one shared SM4 object is the GM/T 0002 value of that call's own source block for every call sequence, hence for every interleaving of any number of callers' sequences (sm4_order_independent, sm4_interleaving, from C05.history_independent); hash objects from the constructor are independent (sm3_objects_independent, from C04.hist_refines); a ticket lookup concurrent with a key rotation sees the old or the new key list, never a mixture (ticket_keys_snapshot). These make 'equals the single-threaded result' a well-defined oracle. What is run: ten concurrent scenarios (one shared sm4 cipher.Block also under CBC/GCM; the package-level sm4 helpers; sm3 constructors, HMAC, PBKDF2; SM2 sign/verify/encrypt/decrypt/key exchange on one shared key and on separate keys; first use of the curve from many goroutines in a fresh process; parsers on shared inputs; PKCS#7 encryption; one CertPool under concurrent Verify with succeeding and failing options; many simultaneous GMSSL handshakes on one server Config and one client Config with an LRU session cache while SetSessionTicketKeys rotates keys; concurrent writers, readers and three concurrent Close calls on one established GMSSL-CBC / GMSSL-GCM / TLS 1.2 connection), each in its own process built with the Go race detector (halt on first report), 2..32 goroutines released together with seeded scheduling jitter; every concurrent result is compared with the result of the same calls run sequentially on identical fresh objects.",
     "note": "Partial by nature: data-race freedom and the outcome of real schedules are properties of the Go runtime and memory model that no executable Lean model exhibits; the race detector only sees the interleavings that occur in the runs (quick: 20 scenario runs, thorough: 120). The theorems are about sequential order-independence of the modelled cores only (SM4 object, SM3 object, ticket-key snapshot); Conn's locking discipline (handshakeMutex, in/out mutexes, activeCall) is exercised by the tlsconn scenario, not modelled.",
